@@ -355,7 +355,21 @@ func runC19(c *Ctx) {
 		c.Check(errTag != "" && hk[errTag] > 0, r3, "error-key", "", "the client's error body tag equals the handlers' error key", "the client's pcError json tag ("+errTag+") is not the key under which the handlers report errors")
 		if rts := opRoute["GetHostName"]; len(rts) > 0 {
 			keys := ginHKeysOf(rts[0].Handler, 200)
-			ck := p.mapKeysRead(p.TryMethod("client", "PcClient", "getHostName"))
+			// keys read by the client's implementation of the operation (the method and the client functions it calls)
+			var ck []string
+			if cr, okc := clientOf["GetHostName"]; okc {
+				fns := []*ssa.Function{cr.fn}
+				AllInstrs(cr.fn, func(in ssa.Instruction) {
+					if call, isC := in.(*ssa.Call); isC {
+						if sc := call.Call.StaticCallee(); sc != nil && pkgOfFunc(sc) != nil && pkgOfFunc(sc).Name() == "client" && len(sc.Blocks) > 0 {
+							fns = appendUniq(fns, sc)
+						}
+					}
+				})
+				for _, f := range fns {
+					ck = append(ck, p.mapKeysRead(f)...)
+				}
+			}
 			ok := len(ck) > 0
 			for _, k := range ck {
 				if !keys[k] {
@@ -364,6 +378,55 @@ func runC19(c *Ctx) {
 			}
 			c.Check(ok, r3, "hostname-key", FirstPos(p, rts[0].Handler), "hostname key agrees", "the key under which the hostname is sent is not the key the client reads")
 		}
+	}
+
+	// ------------------------------------------------------------------ (3b)
+	{
+		rEsc := c.Rule("client-url-escaping", "in every request URL the client builds with a constant template, a string argument placed in a path segment is passed as is or through url.PathEscape, never through url.QueryEscape (which turns a space into '+', a literal plus in a path); an argument in the query part is never passed through url.PathEscape")
+		n := 0
+		for _, f := range p.FuncsOfPkg("client") {
+			AllInstrs(f, func(in ssa.Instruction) {
+				call, ok := in.(*ssa.Call)
+				if !ok {
+					return
+				}
+				o := CalleeObj(&call.Call)
+				if o == nil || o.Pkg() == nil || o.Pkg().Path() != "fmt" || o.Name() != "Sprintf" || len(call.Call.Args) < 2 {
+					return
+				}
+				fs, okf := ConstString(call.Call.Args[0])
+				if !okf || !(strings.HasPrefix(fs, "http://%s/") || strings.HasPrefix(fs, "ws://%s/")) {
+					return
+				}
+				args := variadicValues(call.Call.Args[1])
+				q := strings.Index(fs, "?")
+				idx := 0
+				for _, m := range fmtVerb.FindAllStringIndex(fs, -1) {
+					i := idx
+					idx++
+					if i == 0 || i >= len(args) || args[i] == nil {
+						continue // the address
+					}
+					if b, isB := args[i].Type().Underlying().(*types.Basic); !isB || b.Kind() != types.String {
+						continue
+					}
+					n++
+					esc := urlEscapeOf(args[i], 0)
+					inQuery := q >= 0 && m[0] > q
+					okE := true
+					why := ""
+					if !inQuery && esc == "QueryEscape" {
+						okE, why = false, "a path segment is escaped with url.QueryEscape: a name with a space is sent as 'a+b', which the server does not decode back (the request addresses a different, non-existent process)"
+					}
+					if inQuery && esc == "PathEscape" {
+						okE, why = false, "a query value is escaped with url.PathEscape: '&', '+' and '=' in the value are sent verbatim and change the query"
+					}
+					c.Check(okE, rEsc, fmt.Sprintf("%s:arg%d", p.FuncKey(f), i), p.InstrPos(call), "escaping fits the position", why)
+				}
+			})
+		}
+		c.Floor(rEsc, 6, "string arguments of client URL templates")
+		_ = n
 	}
 
 	// ------------------------------------------------------------------ (4)
@@ -920,4 +983,69 @@ func statusEdge(code int64) EdgeFilter {
 		}
 		return holds == (succ == 0)
 	}
+}
+
+// variadicValues returns the values stored into the slice literal of a variadic call, by index (interfaces unwrapped).
+func variadicValues(v ssa.Value) []ssa.Value {
+	sl, ok := v.(*ssa.Slice)
+	if !ok {
+		return nil
+	}
+	al, ok := sl.X.(*ssa.Alloc)
+	if !ok {
+		return nil
+	}
+	var out []ssa.Value
+	for _, ref := range *al.Referrers() {
+		ia, ok := ref.(*ssa.IndexAddr)
+		if !ok {
+			continue
+		}
+		k, okk := ConstInt(ia.Index)
+		if !okk {
+			continue
+		}
+		for _, r2 := range *ia.Referrers() {
+			if st, ok := r2.(*ssa.Store); ok {
+				val := st.Val
+				if mi, ok := val.(*ssa.MakeInterface); ok {
+					val = mi.X
+				}
+				for int(k) >= len(out) {
+					out = append(out, nil)
+				}
+				out[k] = val
+			}
+		}
+	}
+	return out
+}
+
+// urlEscapeOf: which net/url escaping function produced the string (looking through repository helpers that
+// return such a call), "" when none.
+func urlEscapeOf(v ssa.Value, depth int) string {
+	if depth > 3 {
+		return ""
+	}
+	call, ok := stripConv(v).(*ssa.Call)
+	if !ok {
+		return ""
+	}
+	if o := CalleeObj(&call.Call); o != nil && o.Pkg() != nil && o.Pkg().Path() == "net/url" {
+		return o.Name()
+	}
+	sc := call.Call.StaticCallee()
+	if sc == nil || len(sc.Blocks) == 0 {
+		return ""
+	}
+	res := ""
+	for _, ret := range returnsOf(sc) {
+		if len(ret.Results) != 1 {
+			continue
+		}
+		if e := urlEscapeOf(ret.Results[0], depth+1); e != "" {
+			res = e
+		}
+	}
+	return res
 }
